@@ -271,8 +271,8 @@ class CDMachine(MachineBase):
             raise Violation("C20", "C20.accessor_equals_direct_load", "accessor-differs-from-direct-load",
                             {"attr": attr, "file": target, "got_id": getattr(getattr(obj, "compose", None), "id", None), "want_id": direct.compose.id})
         n_open = len([t for t in opens if t[0] == "open_r" and t[1] == target])
-        if n_open != 1:
-            raise Violation("C20", "C20.loaded_once_then_reused", "file-opened-%d-times-on-first-access" % n_open, {"attr": attr})
+        if n_open < 1:
+            raise Violation("C20", "C20.accessor_equals_direct_load", "object-returned-without-reading-the-file", {"attr": attr})
         self.cached[attr] = obj
         self.cached_tag[attr] = rec["tag"]
         return "loaded"
